@@ -4,6 +4,7 @@ import (
 	"encoding/hex"
 	"fmt"
 	"net"
+	"path/filepath"
 	"sort"
 	"strconv"
 	"strings"
@@ -11,6 +12,8 @@ import (
 	"github.com/elastic/go-libaudit/v2/auparse"
 
 	"verif/engine/enumx"
+	"verif/engine/ev"
+	"verif/engine/harvest"
 	"verif/refdata"
 )
 
@@ -77,6 +80,12 @@ func recordsFor(v string) []rec {
 	out = append(out,
 		rec{1300, "arch=c000003e syscall=2 success=yes exit=3 a0=7ffd a1=0 a2=1b6 a3=0 items=1 ppid=10 pid=11 auid=1000 uid=0 gid=0 tty=pts0 ses=3 comm=\"cat\" exe=" + u + " key=(null)", "exe", v,
 			map[string]string{"a0": "7ffd", "a2": "1b6", "items": "1", "ppid": "10", "pid": "11", "auid": "1000", "uid": "0", "tty": "pts0", "ses": "3", "comm": "cat", "exit": "3"}},
+		// the same field in records whose OTHER fields take the rare paths: a syscall number without a table
+		// entry, an ABI without a table, a failed call, SECCOMP
+		rec{1300, "arch=c000003e syscall=9999 success=no exit=-13 a0=7ffd a1=0 a2=1b6 a3=0 items=1 ppid=10 pid=11 auid=4294967295 uid=0 gid=0 tty=(none) ses=4294967295 comm=\"cat\" exe=" + u + " key=(null)", "exe", v,
+			map[string]string{"a0": "7ffd", "ppid": "10", "pid": "11", "auid": "unset", "ses": "unset", "comm": "cat", "syscall": "9999"}},
+		rec{1300, "arch=c00000f3 syscall=1 success=yes exit=0 a0=0 items=0 ppid=10 pid=11 auid=0 uid=0 comm=\"cat\" exe=" + u, "exe", v, map[string]string{"pid": "11", "comm": "cat", "syscall": "1"}},
+		rec{1326, "auid=1000 uid=0 gid=0 ses=1 pid=11 comm=\"cat\" exe=" + u + " sig=31 arch=c000003e syscall=400 compat=0 ip=0x7f code=0x0", "exe", v, map[string]string{"pid": "11", "comm": "cat", "syscall": "400"}},
 		rec{1307, "cwd=" + u, "cwd", v, nil},
 		rec{1302, "item=0 name=" + u + " inode=5 dev=08:01 mode=0100644 ouid=0 ogid=0 rdev=00:00 nametype=NORMAL cap_fp=0 cap_fi=0 cap_fe=0 cap_fver=0", "name", v,
 			map[string]string{"item": "0", "inode": "5", "dev": "08:01", "mode": "0100644", "ouid": "0", "ogid": "0", "rdev": "00:00", "nametype": "NORMAL", "cap_fver": "0"}},
@@ -88,6 +97,20 @@ func recordsFor(v string) []rec {
 		rec{1112, "pid=9 uid=0 auid=4294967295 ses=4294967295 msg='op=login acct=" + u + " exe=\"/usr/sbin/sshd\" hostname=? addr=10.0.0.1 terminal=ssh res=failed'", "acct", v, map[string]string{"op": "login", "exe": "/usr/sbin/sshd", "addr": "10.0.0.1", "terminal": "ssh", "auid": "unset", "ses": "unset", "result": "fail"}},
 	)
 	return out
+}
+
+var hvAuparse *harvest.Result
+
+// harvestedAuparse: literals, integer constants and AUDIT_ identifiers of the hand-written files of the
+// tree's auparse package (generated tables are enumerated by their own generators).
+func harvestedAuparse() *harvest.Result {
+	if hvAuparse == nil {
+		r := harvest.Dir(filepath.Join(ev.Repo(), "auparse"), harvest.Options{SkipFile: func(n string) bool {
+			return strings.HasPrefix(n, "z") || strings.HasPrefix(n, "mk_") || strings.HasPrefix(n, "defs_")
+		}})
+		hvAuparse = &r
+	}
+	return hvAuparse
 }
 
 func checkRec(c *enumx.Ctx, r rec) {
@@ -175,6 +198,22 @@ func c12Strings(c *enumx.Ctx) {
 			v := "/" + strings.Repeat("d", n-2) + unsafeCh
 			if unsafeCh != "" {
 				v = "/" + strings.Repeat("d", n-3) + unsafeCh + "e"
+			}
+			for _, r := range recordsFor(v) {
+				if !c.Mine() {
+					continue
+				}
+				checkRec(c, r)
+			}
+		}
+	}
+	// string literals of the tree's auparse package (whatever the decoders compare against or cut out): as
+	// whole values, in the middle and at either end of a value, of every decoded field
+	for _, l := range harvestedAuparse().Strings {
+		for _, shape := range []string{"%s", "ab%scd", "%sx", "x%s", "/tmp/%s/%s"} {
+			v := strings.ReplaceAll(shape, "%s", l)
+			if !inDomain(v) || isPlaceholder(v) || len(v) > 200 || strings.Contains(v, "\x00") {
+				continue // a NUL cannot be inside a kernel string (proctitle has its own cases)
 			}
 			for _, r := range recordsFor(v) {
 				if !c.Mine() {
